@@ -116,10 +116,13 @@ def detect(d, props):
     return 0
 
 
-def all_seeded():
+def all_seeded(only=None):
+    """`only`: re-run just these seeds and merge the outcome into seeded/RESULTS.json."""
     base = os.path.join(VERIF, "seeded")
     rows = []
     for name in sorted(os.listdir(base)):
+        if only and name not in only:
+            continue
         d = os.path.join(base, name)
         if not os.path.exists(os.path.join(d, "meta.json")):
             continue
@@ -139,7 +142,15 @@ def all_seeded():
                              "repo_head": sh(["git", "-C", REPO, "rev-parse", "--short", "HEAD"])[1].strip()}
         json.dump(meta, open(os.path.join(d, "meta.json"), "w"), indent=1)
         print(name, meta["property"], "caught by", caught, flush=True)
-    json.dump([{"seed": n, "property": p, "caught_by": c, "detail": r} for n, p, c, r in rows], open(os.path.join(base, "RESULTS.json"), "w"), indent=1)
+    new = [{"seed": n, "property": p, "caught_by": c, "detail": r} for n, p, c, r in rows]
+    if only:
+        try:
+            old = json.load(open(os.path.join(base, "RESULTS.json")))
+        except (OSError, ValueError):
+            old = []
+        names = {r["seed"] for r in new}
+        new = sorted([r for r in old if r["seed"] not in names] + new, key=lambda r: r["seed"])
+    json.dump(new, open(os.path.join(base, "RESULTS.json"), "w"), indent=1)
     missed = [n for n, p, c, r in rows if not c]
     print("missed:", missed)
     return 0
@@ -153,3 +164,5 @@ if __name__ == "__main__":
         sys.exit(detect(sys.argv[2], [a.upper() for a in sys.argv[3:]]))
     if cmd == "all":
         sys.exit(all_seeded())
+    if cmd == "some":
+        sys.exit(all_seeded(set(sys.argv[2:])))
